@@ -120,8 +120,23 @@ def total_on(pp, expr, s, timeout=2.0):
         except RecursionError:
             probs.append(f"{name}: RecursionError")
         except Exception as ex:  # noqa
-            probs.append(f"{name}: {type(ex).__name__}: {str(ex)[:80]}")
+            import os as _os
+            import traceback as _tb
+            fr = [(_os.path.basename(f.filename), f.name) for f in _tb.extract_tb(ex.__traceback__)
+                  if _os.sep + "pyparsing" + _os.sep in f.filename]
+            sig = ""
+            if type(ex) is IndexError and fr[-2:] == [("core.py", "split"), ("results.py", "__getitem__")]:
+                sig = " [sig:split_include_separators_no_tokens]"
+            probs.append(f"{name}: {type(ex).__name__}: {str(ex)[:80]}{sig}")
     return n, probs, to
+
+
+def split_sep_empty_tokens(pp, expr, s):
+    """signature predicate of the known finding: some scan_string match of expr on s has no tokens"""
+    try:
+        return any(not t for t, _, _ in common.with_alarm(2.0, lambda: list(expr.scan_string(s, max_matches=3))))
+    except BaseException:  # noqa
+        return False
 
 
 def modelled_job(job):
@@ -214,17 +229,48 @@ def report(ctx, stream, res, jobs_desc):
                     samples=[jobs_desc[0]] if jobs_desc else [])
     seen = set()
     for m in bad:
-        sig = None
-        if m["stream"] == "zoo" and any("TypeError" in p for p in m["problems"]) and "W1_3" in m.get("desc", "") :
-            sig = None
-        key = m["problems"][0][:60]
+        probs = list(m["problems"])
+        # registered findings are recognised by their signature (exception type + raising frames), never by input
+        for tag in ("split_include_separators_no_tokens",):
+            rest = [p for p in probs if f"[sig:{tag}]" not in p]
+            if len(rest) < len(probs):
+                e = ctx.match_known(tag)
+                if e is not None:
+                    ctx.known(e)
+                    probs = rest
+        if not probs:
+            continue
+        key = probs[0][:60]
         if key in seen or len(seen) >= 3:
             continue
         seen.add(key)
         ctx.fail_input("an internal exception escapes / bad diagnostics", {k: m[k] for k in m if k != "problems"},
-                       "only ParseBaseException with consistent diagnostics", m["problems"], theorem="C06 statement (oracle)",
-                       signature=sig, how="harness.props.c06.total_on(pp, expr, input)")
+                       "only ParseBaseException with consistent diagnostics", probs, theorem="C06 statement (oracle)",
+                       how="harness.props.c06.total_on(pp, expr, input)")
     return bad
+
+
+def known_witnesses(ctx, pp):
+    """replay the registered witnesses of the open findings; each prints its KNOWN-FINDING line only if it still fails
+    the recorded way"""
+    # split(include_separators=True) on a match without tokens
+    n, probs, _ = total_on(pp, pp.Suppress(pp.Literal("a")), "bab")
+    if any("[sig:split_include_separators_no_tokens]" in p for p in probs):
+        e = ctx.match_known("split_include_separators_no_tokens")
+        if e is not None:
+            ctx.known(e)
+        else:
+            ctx.fail_input("IndexError escapes split()", {"program": "Suppress(Literal('a'))", "input": "bab"},
+                           "no IndexError", probs, theorem="C06 statement (oracle)")
+    # GoToColumn hands out locations beyond the end of the text (generators contain no GoToColumn)
+    try:
+        (pp.GoToColumn(3) + pp.NoMatch()).parse_string("\n")
+    except pp.ParseBaseException as ex:
+        if ex.loc > len(ex.pstr) + 1:
+            ctx.fail_input("exception location outside the parsed string", {"program": "GoToColumn(3) + NoMatch()", "input": "\n"},
+                           "loc <= len+1", f"loc {ex.loc}, len {len(ex.pstr)}", theorem="C06 statement (oracle)",
+                           signature="gotocolumn_advances_past_end")
+    ctx.count_cases("known-finding-witnesses", 2)
 
 
 def run(ctx):
@@ -238,6 +284,7 @@ def run(ctx):
                     "(depth<=3) of every exported ParserElement class/helper/pyparsing_common expression x 8 of 47 "
                     "boundary/near-syntax inputs x 11 entry points; nullable repetition bodies filtered; non-trivial = "
                     "distinct (expression, input)")
+    known_witnesses(ctx, pp)
     jobs = []
     for i in range(ctx.budget(800, 8000)):
         rng = random.Random(f"C06-{ctx.seed}-corr-{i}")
@@ -249,7 +296,11 @@ def run(ctx):
     mj = [dict(prog=j["prog"], root=j["root"], inputs=j["inputs"][:6]) for j in jobs[: ctx.budget(400, 4000) * mult]]
     report(ctx, "oracle:modelled", common.pmap(modelled_job, mj), [json.dumps(j["prog"])[:200] for j in mj])
     seeds = [f"C06-zoo-{ctx.seed}-{i}" for i in range(ctx.budget(1200, 12000) * mult)]
-    res = common.pmap(zoo_job, seeds)
+    res = common.pmap_hard(zoo_job, seeds, per_item_timeout=12.0)
+    hard = [sd for sd, r in zip(seeds, res) if r == common.HARD_TIMEOUT]
+    res = [r for r in res if r != common.HARD_TIMEOUT and not (isinstance(r, tuple) and r and r[0] == "__worker_exception__")]
+    ctx.notes["zoo_hard_timeouts"] = {"count": len(hard), "seeds": hard[:10],
+                                       "note": "expressions that spin inside C code / beyond the per-call guard; counted, not reported"}
     report(ctx, "oracle:zoo", res, [r[3] for r in res if r[3]])
     ctx.assumptions.append("C06: termination, location bounds and classes outside the parse model are decided by the oracle sweep")
 
